@@ -533,6 +533,16 @@ func opC07Forest(raw json.RawMessage, o *Out) {
 			Wit    [2]int
 			Inside bool
 		}
+		Re []struct {
+			Sel  []int
+			Want []struct {
+				Depth  int
+				Hole   bool
+				Parent int
+				Ndesc  int
+			}
+			Inside []bool
+		}
 	}
 	if err := json.Unmarshal(raw, &c); err != nil {
 		panic(err)
@@ -600,6 +610,97 @@ func opC07Forest(raw json.RawMessage, o *Out) {
 			}
 		}
 	}
+	// Reassembly on the SAME loop objects (they now carry the depths of the polygon above): every
+	// selection must give the polygon of the induced forest, and must answer like the polygon
+	// assembled from fresh copies of the selected loops.
+	fresh := func(sel []int) *s2.Polygon {
+		in := make([]*s2.Loop, len(sel))
+		for m, k := range sel {
+			in[m] = s2.LoopFromPoints(c07Pts(c.F, c.Gf, c.Loops[k], false))
+		}
+		return s2.PolygonFromLoops(in)
+	}
+	all := make([]int, len(loops))
+	for k := range all {
+		all[k] = k
+	}
+	full := fresh(all)
+	for step, re := range c.Re {
+		if len(re.Sel) == 0 {
+			continue
+		}
+		o.Count("forest_reassembly_steps")
+		rcls := "several"
+		if len(re.Sel) == 1 {
+			rcls = "single"
+			if c.Want[re.Sel[0]].Hole {
+				rcls = "single-former-hole"
+			}
+		}
+		rdesc := fmt.Sprintf("reassembly step %d from input loops %v of the same objects; %s", step, re.Sel, desc)
+		in := make([]*s2.Loop, len(re.Sel))
+		pos := map[*s2.Loop]int{}
+		for m, k := range re.Sel {
+			in[m] = loops[k]
+			pos[loops[k]] = m
+		}
+		pr := s2.PolygonFromLoops(in)
+		if pr.NumLoops() != len(in) {
+			o.Fail("c07forest/reassemble/numloops/"+rcls, "NumLoops=%d want %d; %s", pr.NumLoops(), len(in), rdesc)
+			continue
+		}
+		bad := false
+		for k := 0; k < pr.NumLoops(); k++ {
+			l := pr.Loop(k)
+			m, ok := pos[l]
+			if !ok {
+				o.Fail("c07forest/reassemble/loops-permuted/"+rcls, "loop %d is not a selected loop; %s", k, rdesc)
+				bad = true
+				break
+			}
+			w := re.Want[m]
+			if d := s2.VerifLoopDepth(l); d != w.Depth || l.IsHole() != w.Hole {
+				o.Fail("c07forest/reassemble/depth/"+rcls, "input loop %d: depth %d IsHole %v, model of the induced forest %d %v (a loop is a hole iff an odd number of the OTHER SELECTED loops enclose it); %s",
+					re.Sel[m], d, l.IsHole(), w.Depth, w.Hole, rdesc)
+			}
+			pk, has := pr.Parent(k)
+			if has != (w.Parent >= 0) || (has && (pk < 0 || pk >= pr.NumLoops() || idx[pr.Loop(pk)] != w.Parent)) {
+				o.Fail("c07forest/reassemble/Parent/"+rcls, "input loop %d: Parent=%d,%v, model: input loop %d; %s", re.Sel[m], pk, has, w.Parent, rdesc)
+			}
+			if ld := pr.LastDescendant(k); ld != k+w.Ndesc {
+				o.Fail("c07forest/reassemble/lastdescendant/"+rcls, "input loop %d at %d: LastDescendant=%d, model %d; %s", re.Sel[m], k, ld, k+w.Ndesc, rdesc)
+			}
+		}
+		if bad {
+			continue
+		}
+		for k, w := range c.Want {
+			ctr := emb.FromFaceIJ(c.F, c.Gf, w.Wit[0], w.Wit[1]).Point()
+			if g := pr.ContainsPoint(ctr); g != re.Inside[k] {
+				o.Fail("c07forest/reassemble/region/"+rcls, "ContainsPoint(witness cell of input loop %d)=%v, model %v; %s", k, g, re.Inside[k], rdesc)
+			}
+		}
+		// history independence: the same answers as the polygon built from fresh copies of the loops
+		pf := fresh(re.Sel)
+		got := [4]bool{pr.Contains(full), full.Contains(pr), pr.Intersects(full), full.Intersects(pr)}
+		ref := [4]bool{pf.Contains(full), full.Contains(pf), pf.Intersects(full), full.Intersects(pf)}
+		if got != ref || pr.RectBound() != pf.RectBound() {
+			o.Fail("c07forest/reassemble/history/"+rcls, "against the full polygon: Contains,contained,Intersects,intersected = %v, from fresh copies %v; RectBound %v vs %v; %s",
+				got, ref, pr.RectBound(), pf.RectBound(), rdesc)
+		}
+		if len(in) == 1 {
+			// single-loop polygon answers = loop answers
+			l := s2.LoopFromPoints(c07Pts(c.F, c.Gf, c.Loops[re.Sel[0]], false))
+			for _, fl := range full.Loops() {
+				one := s2.PolygonFromLoops([]*s2.Loop{s2.LoopFromPoints(fl.Vertices())})
+				if pr.Contains(one) != l.Contains(one.Loop(0)) || pr.Intersects(one) != l.Intersects(one.Loop(0)) || one.Contains(pr) != one.Loop(0).Contains(l) {
+					o.Fail("c07forest/reassemble/single-vs-loop/"+rcls, "single-loop polygon of input loop %d answers differently from the loop against another loop of the scene; %s", re.Sel[0], rdesc)
+					break
+				}
+			}
+		}
+	}
+
 	// the same polygon assembled from oriented loops: holes given clockwise
 	{
 		ol := make([]*s2.Loop, len(c.Loops))
